@@ -45,6 +45,9 @@ PLAN = {
     "C20": dict(q=(8, 24000), t=(16, 480000)),
 }
 
+# native go test -fuzz stage (seconds) of the thorough tier
+NATIVE_FUZZ = {"C14": 120, "C05": 90}
+
 MASK = (1 << 64) - 1
 
 
@@ -285,6 +288,43 @@ def run(prop, tier, seed, args, binary, t0):
         else:
             inconclusive = True
             print(f"shard {k} failed without a saved case (inconclusive):\n{tail_of(log)}")
+
+    # 3. native coverage-guided fuzzing of the same generator+oracle
+    #    (thorough tier of C14 and C05; cannot be pinned to a seed, so never in quick)
+    if tier == "thorough" and prop in NATIVE_FUZZ and not violations and not os.environ.get("VERIF_NO_NATIVE_FUZZ"):
+        secs = NATIVE_FUZZ[prop]
+        failp = os.path.join(rundir, "fuzzfail.json")
+        env = dict(GOENV, VERIF_FAILOUT=failp, VERIF_PROP=prop)
+        cachedir = os.path.join(rundir, "fuzzcache")
+        cmd = ["go", "test", "-tags", "verif", "-run", "^$", "-fuzz", f"^Fuzz{prop}$", f"-fuzztime={secs}s",
+               f"-test.fuzzcachedir={cachedir}", "."]
+        try:
+            fp = subprocess.run(cmd, cwd=HARNESS, env=env, capture_output=True, text=True, timeout=secs + 600)
+            fout = fp.stdout + fp.stderr
+            execs = 0
+            for line in fout.splitlines():
+                if "execs:" in line:
+                    try:
+                        execs = max(execs, int(line.split("execs:")[1].split()[0]))
+                    except Exception:
+                        pass
+            merged["counters"]["native_fuzz_execs"] = execs
+            merged["counters"]["native_fuzz_seconds"] = secs
+            merged["evaluations"] += execs
+            if fp.returncode != 0:
+                if os.path.exists(failp):
+                    os.makedirs(FOUND, exist_ok=True)
+                    dest = os.path.join(FOUND, f"found-{prop}-nativefuzz.json")
+                    shutil.copy(failp, dest)
+                    violations.append((dest, "native fuzzing: " + fout[-1500:]))
+                else:
+                    inconclusive = True
+                    print("native fuzzing failed without a saved case (inconclusive):\n" + fout[-1500:])
+        except subprocess.TimeoutExpired:
+            inconclusive = True
+            print("native fuzzing timed out (inconclusive)")
+        finally:
+            shutil.rmtree(os.path.join(HARNESS, "testdata"), ignore_errors=True)
 
     wall = time.time() - t0
     meta = prop_meta(binary, prop)
